@@ -17,7 +17,7 @@ EXPLANATION = (
     "origin) of the middle of the axis-facing edge of the box drawn for the same datum; box size = datum size + padding (swapped for left/right); box text = the "
     "datum's text (through ElementTree escaping; uni2tex image for TikZ)."
 )
-BOUNDS = {"quick": dict(data="2 (3 with layers / derived shapes)", value_box="times inside the explicit domain, widths in [1,120]", directions="all four", layers="overlap and simple with maxPos=120 (vpsc contract stub)"), "thorough": dict(same="all layer configurations")}
+BOUNDS = {"quick": dict(data="2 (3 with layers / derived shapes)", value_box="times inside the explicit domain, widths in [1,120]", directions="all four", layers="overlap and simple with maxPos=120 (vpsc contract stub); three layers: five labels of width 60 under maxPos=130 with three times pinned (30, 40, 55) and two symbolic"), "thorough": dict(same="all layer configurations; three layers with all five times symbolic")}
 OUTSIDE = ["labels without explicit width (LaTeX)", "TikZ margins", "more than 3 data", "symbolic sizes / padding / margins (defaults are used)", "for text labels drawn left/right the code adds top+bottom padding to the width and left+right to the height: either assignment is accepted"]
 ASSUMPTIONS = ["floats as exact reals", "printf conversions modelled by their contract (%i truncates toward zero, %.Nf is the correctly rounded N-decimal, str() is exact)", "vpsc contract stub in the layered configurations", "datetime modelled by vlib.symdt"]
 
